@@ -235,6 +235,7 @@ Plan gen_plan(int prop, uint64_t runseed) {
         const auto &ks = kinds[f];
         push_kind(ks[r.below((uint32_t)ks.size())]);
         Op &o = p.ops.back();
+        if (o.kind == B_HUGE && r.below(4)) { o.kind = B_ALLOCATE; fill_operands(r, o, bias, streams_only); }      // (one in four stays: sizes beyond 32 bits are a rare class)
         if (prop == P_C16 && (o.kind == S_FROM || o.kind == S_FROM_NUM || o.kind == S_LITERAL || o.kind == S_NEW_DEFAULT)) o.kind = S_FILL, fill_operands(r, o, bias, false);
         if (prop == P_C16 && o.kind == S_CONSTRUCT) o.d = 1;      // C16 histories only need plain (ptr,len) strings as arguments of stream << string
         if (corrupt_rate && corruptible(o.kind) && r.below(corrupt_rate) == 0) { o.fault |= F_CORRUPT; o.fc = r.below(1 << 24); }
